@@ -143,3 +143,67 @@ Proof.
   rewrite Hc2. cbn [andb].
   eexists. split; [reflexivity|]. destruct c; csimpl. repeat split.
 Qed.
+
+(* ------------------------------------------------------------------ CopyRect only while advertised *)
+Lemma redraw_cC st x : cC (redraw_cursor_M st x) = cC x.
+Proof. destruct x; reflexivity. Qed.
+
+Lemma client_resize_cC c W H : cC (client_resize c W H) = cC c.
+Proof. unfold client_resize. destruct (_ && _); [reflexivity|destruct c; reflexivity]. Qed.
+
+(* C03-F25 (fixed 690d81d): after a SetEncodings that does not name CopyRect nothing is left in the copy
+   region (a pending copy became modified pixels) ... *)
+Lemma setenc_without_copyrect_no_copy st shape newfb ext c :
+  rgn_is_empty (cC (setenc_client st false shape newfb ext c)) = true.
+Proof.
+  unfold setenc_client. cbv zeta.
+  set (c3a := if ext then _ else _).
+  set (c3b := if setenc_drops_copy && negb false && negb (rgn_is_empty (cC c3a)) then _ else c3a).
+  assert (Hb : rgn_is_empty (cC c3b) = true).
+  { unfold c3b, setenc_drops_copy. cbn [andb negb].
+    destruct (rgn_is_empty (cC c3a)) eqn:E; cbn [negb]; [exact E|]. reflexivity. }
+  set (c3 := if cShape c && negb (cShape c3b) then redraw_cursor_M st c3b else c3b).
+  assert (H3 : cC c3 = cC c3b) by (unfold c3; destruct (cShape c && negb (cShape c3b)); [apply redraw_cC|reflexivity]).
+  destruct (cUseNewFB c3); [|rewrite client_resize_cC]; rewrite H3; exact Hb.
+Qed.
+
+(* ... and an update for a client with an empty copy region carries no CopyRect *)
+Definition is_wcopy (w : wrect) : bool := match w with WCopy _ _ _ _ _ _ => true | _ => false end.
+
+Lemma no_copy_region_no_copyrect st c c' n rects :
+  Inv st -> In c (sClients st) ->
+  rgn_is_empty (cC c) = true -> send_client st c = Some (c', Some (n, rects)) ->
+  existsb is_wcopy rects = false.
+Proof.
+  intros (HW & HH & _ & Hcl) Hin HC. rewrite Forall_forall in Hcl. destruct (Hcl c Hin) as [I _].
+  pose proof (iWM _ _ _ _ I) as HWM. pose proof (iWC _ _ _ _ I) as HWC. pose proof (iWR _ _ _ _ I) as HWR.
+  unfold send_client, send_client_gen. destruct (scaled_guard c); [discriminate|].
+  destruct (cUseNewFB c && cNewFBPending c).
+  { destruct (announced_size st c). intros Hs; inversion Hs; subst. destruct (cUseExt c); reflexivity. }
+  destruct (slice_region st c (cM c)) as [U0 sy].
+  destruct (rgn_and _ _) as [U2 b].
+  destruct (_ && _ && _ && _); [discriminate|].
+  unfold send_update_gen.
+  set (UC := r_and (r_and (r_sub (cC c) (cM c)) (cR c)) (rgn_offset (cR c) (cDX c) (cDY c))).
+  assert (HUC : WF UC) by (unfold UC; wf).
+  assert (EUC : UC = []).
+  { assert (He : rgn_is_empty UC = true).
+    { apply (is_empty_sem UC HUC). intros x y. unfold UC.
+      rewrite !r_and_mem by wf. rewrite r_sub_mem by wf.
+      rewrite (proj1 (is_empty_sem (cC c) HWC) HC x y). reflexivity. }
+    destruct UC; [reflexivity|discriminate]. }
+  destruct (soft_cursor st _ _) as [c2 U3c].
+  destruct (_ && _ && _ && _); [|discriminate].
+  intros Hs; inversion Hs; subst. clear Hs.
+  rewrite existsb_app.
+  assert (H1 : existsb is_wcopy (if cShape c && cCurChanged c && cReady c
+                                 then [match sCursor st with
+                                       | Some (xh, yh, cw, ch) => if (cw =? 0) || (ch =? 0) then WCursor 0 0 0 0 else WCursor xh yh cw ch
+                                       | None => WCursor 0 0 0 0 end] else []) = false).
+  { destruct (_ && _ && _); [|reflexivity]. destruct (sCursor st) as [[[[? ?] cw] ch]|]; [destruct (_ || _)|]; reflexivity. }
+  rewrite H1. cbn [orb]. unfold copy_wrects. rewrite EUC.
+  assert (Ei : rgn_iter (cDX c >? 0) (cDY c >? 0) (@nil (span xspans)) = @nil rect)
+    by (destruct (cDX c >? 0); destruct (cDY c >? 0); reflexivity).
+  rewrite Ei.
+  cbn [map app]. induction (filter raw_emitted _) as [|[[[x1 y1] x2] y2] l IH]; [reflexivity|exact IH].
+Qed.
